@@ -139,7 +139,7 @@ def _shorten_trace(tr):
         if sp and sp.get("keep") and len(sp["keep"]) > 12:
             sp["keep"] = sp["keep"][:12] + ["..."]
     for s in t.get("sessions", []):
-        sp = s.get("spec")
+        sp = s.get("spec") if isinstance(s, dict) else None
         if sp and sp.get("keep") and len(sp["keep"]) > 12:
             sp["keep"] = sp["keep"][:12] + ["..."]
     return t
